@@ -35,13 +35,15 @@ class Tracer:
         class Chi2Calculator:          # noqa
             __gmv_original__ = getattr(Real, '__gmv_original__', Real)
 
-            def __init__(self, mol1, mol2, restrictions=None):
-                self._gmv_real = Real(mol1, mol2, restrictions)
+            def __init__(self, *args, **kwargs):
+                mol1, mol2, restrictions = bus.seen(('mol1', 'mol2', 'restrictions'), args, kwargs)
+                self._gmv_real = Real(*args, **kwargs)
                 tracer.events.append(('chi2-built', np.array(mol1, float, copy=True), np.array(mol2, float, copy=True),
                                       None if restrictions is None else [tuple(int(x) for x in r) for r in restrictions]))
 
-            def __call__(self, mol2):
-                v = self._gmv_real(mol2)
+            def __call__(self, *args, **kwargs):
+                mol2, = bus.seen(('mol2',), args, kwargs)
+                v = self._gmv_real(*args, **kwargs)
                 tracer.events.append(('chi2', np.array(mol2, float, copy=True), v))
                 if tracer._e_min is None:
                     tracer._e_min = v
@@ -52,10 +54,11 @@ class Tracer:
         return Chi2Calculator
 
     def _accept(self, real):
-        def accept_metropolis(energy_0, energy_1, acceptance=0.01):
+        def accept_metropolis(*args, **kwargs):
+            energy_0, energy_1, acceptance = bus.seen(('energy_0', 'energy_1', 'acceptance'), args, kwargs, {'acceptance': 0.01})
             self._in_accept = []
             try:
-                d = real(energy_0, energy_1, acceptance)
+                d = real(*args, **kwargs)
             finally:
                 draws, self._in_accept = self._in_accept, None
             self.events.append(('accept', energy_0, energy_1, bool(d), draws, acceptance))
@@ -71,16 +74,18 @@ class Tracer:
         return accept_metropolis
 
     def _move(self, real):
-        def move_mol_atom(atoms_pos, bonds_info, atom_index=None, displ=None, sigma_scale=0.5):
+        def move_mol_atom(*args, **kwargs):
+            atoms_pos, sigma_scale = bus.seen(('atoms_pos', 'bonds_info', 'atom_index', 'displ', 'sigma_scale'), args, kwargs, {'sigma_scale': 0.5})[::4]
             before = np.array(atoms_pos, float, copy=True)
-            out = real(atoms_pos, bonds_info, atom_index=atom_index, displ=displ, sigma_scale=sigma_scale)
+            out = real(*args, **kwargs)
             self.events.append(('move', before, np.array(out, float, copy=True), sigma_scale))
             return out
         return move_mol_atom
 
     def _rot(self, real):
-        def rotation_matrix(axis, theta):
-            R = real(axis, theta)
+        def rotation_matrix(*args, **kwargs):
+            axis, theta = bus.seen(('axis', 'theta'), args, kwargs)
+            R = real(*args, **kwargs)
             self.events.append(('rot', np.array(axis, float, copy=True), float(theta), np.array(R, float, copy=True)))
             return R
         return rotation_matrix
